@@ -27,8 +27,21 @@ def mentions_field(ex, fname, variant=None):
     return False
 
 
-def r1(ctx):
-    rule = "C07.R1"
+def every_alternative_mentions(ex, fname, variant=None):
+    """as mentions_field, but a value chosen between several sources (`match .. { a => Range::none(), b => Range(.., marker) }`)
+    must come from the field on every alternative; an alternative that is itself a freshly built model value is decided where
+    it is built"""
+    e = X.strip(ex)
+    while e[0] in ("ref", "deref", "mut"):
+        e = X.strip(e[1])
+    if e[0] == "phi":
+        return all(every_alternative_mentions(a, fname, variant) for a in e[1])
+    if e[0] == "agg" and e[1] == "adt" and e[2].startswith(MODEL_ADTS):
+        return True
+    return mentions_field(e, fname, variant)
+
+
+def r1(ctx, rule="C07.R1"):
     ctx.rule(rule, "T6 field provenance: in every try_resolve of the ASN model (and ResolveScope::try_resolve) each field of a constructed "
                    "struct comes from the same-named field of the source, and each argument of a constructed enum variant from the same "
                    "position of the same variant - nothing is dropped, swapped, defaulted or rebuilt as a neighbouring variant")
@@ -37,7 +50,7 @@ def r1(ctx):
         table = json.load(fh).get("C07", {})
     fns = [b for b in P.lib_bodies("asn1rs_model") if b.name == "try_resolve" and b.def_kind == "AssocFn" and "::promoted[" not in b.path
            and (b.file.startswith("asn1rs-model/src/asn/") or b.file.endswith("resolve.rs"))]
-    ctx.floor(rule, len(fns), "C07.R1.functions")
+    ctx.floor(rule, len(fns), rule + ".functions")
     n = 0
     for b in sorted(fns, key=lambda x: x.path):
         fname = X.short(b.path)
@@ -73,10 +86,10 @@ def r1(ctx):
                                                                                               adt.split("::")[-1], rv["variant"]),
                                      span_loc(s["sp"]), detail)
                             continue
-                        ok = mentions_field(ex, fld, rv["variant"] if adt == self_adt else None) or not any(
+                        ok = every_alternative_mentions(ex, fld, rv["variant"] if adt == self_adt else None) or not any(
                             e[0] in ("param", "upvar", "call", "field") for e in X.walk(ex)) and False
                     else:
-                        ok = mentions_field(ex, fld)
+                        ok = every_alternative_mentions(ex, fld)
                     if ok:
                         ctx.ok(rule, key, detail)
                     elif key in table:
@@ -86,7 +99,7 @@ def r1(ctx):
                         ctx.fail(rule, key, "%s builds %s::%s with `%s` taken from `%s`, not from the source's `%s`: the declared element is "
                                             "dropped or replaced" % (fname, adt.split("::")[-1], rv["variant"], fld, X.render(ex)[:60], fld),
                                  span_loc(s["sp"]), detail)
-    ctx.floor(rule, n, "C07.R1.fields")
+    ctx.floor(rule, n, rule + ".fields")
 
 
 def r2(ctx):
@@ -424,3 +437,6 @@ def run(ctx):
     r4(ctx)
     r5(ctx)
     r6(ctx)
+    # imports keep resolving to the module they name (shared with C12): an accepted module must end in a resolved model
+    from .c12 import r10 as name_is_an_alternative
+    name_is_an_alternative(ctx, rule="C07.R7")
